@@ -1,4 +1,376 @@
+// C19: algebraic laws of clone / subst / equal / get_size on one parsed expression.
 #include "worker.h"
+
+#include <cmath>
+#include <functional>
+#include <set>
+
+using namespace UTAP;
+using namespace UTAP::Constants;
+
 namespace utapv {
-json expr_laws(UTAP::Document&, UTAP::expression_t) { return json{{"harness_error", "laws not built"}}; }
+void expr_set_kind(expression_t& e, int kind);
+void expr_set_child(expression_t& e, size_t i, const expression_t& c);
+void expr_set_int(expression_t& e, int32_t v);
+void expr_set_double(expression_t& e, double v);
+void expr_set_symbol(expression_t& e, symbol_t s);
+
+namespace {
+void collect_nodes(const expression_t& e, std::set<const void*>& out, size_t& count)
+{
+    if (e.empty())
+        return;
+    out.insert(expr_node(e));
+    ++count;
+    for (size_t i = 0; i < expr_stored_children(e); ++i)
+        collect_nodes(*expr_child(e, i), out, count);
 }
+
+void collect_symbols(const expression_t& e, std::vector<symbol_t>& out)
+{
+    if (e.empty())
+        return;
+    if (e.get_kind() == IDENTIFIER) {
+        symbol_t s = expr_symbol_raw(e);
+        bool seen = false;
+        for (auto& o : out)
+            if (o == s)
+                seen = true;
+        if (!seen && !(s == symbol_t()))
+            out.push_back(s);
+    }
+    for (size_t i = 0; i < expr_stored_children(e); ++i)
+        collect_symbols(*expr_child(e, i), out);
+}
+
+// reference substitution, on the rendering
+std::string ref_subst(const expression_t& e, const symbol_t& s, const std::string& repl, const SexprOpts& o)
+{
+    if (e.empty())
+        return "()";
+    if (e.get_kind() == IDENTIFIER && expr_symbol_raw(e) == s)
+        return repl;
+    size_t n = expr_stored_children(e);
+    if (n == 0)
+        return sexpr(e, o);
+    // render this node with children replaced: take the node's own rendering without children
+    expression_t shallow = e.clone();
+    std::string head = sexpr(e, o);
+    // rebuild: "(HEAD child...)" -> compute head token by rendering children and cutting them off is fragile;
+    // instead render each child and assemble using the same format as dump.cpp
+    std::string r = "(";
+    r += kind_name(e.get_kind());
+    int32_t iv;
+    double dv;
+    std::string sv;
+    int yv;
+    int k = e.get_kind();
+    if (k == DOT || k == VAR_INDEX) {
+        if (expr_value_int(e, iv))
+            r += ":" + std::to_string(iv);
+    } else if (k == SYNC) {
+        if (expr_value_sync(e, yv))
+            r += ":" + std::to_string(yv);
+    } else if (k != CONSTANT && k != IDENTIFIER) {
+        if (expr_value_int(e, iv)) {
+            if (iv != 0)
+                r += ":v" + std::to_string(iv);
+        } else if (expr_value_double(e, dv))
+            r += ":d" + hexdouble(dv);
+    }
+    if (k != IDENTIFIER && expr_has_symbol(e))
+        r += " @" + expr_symbol_raw(e).get_name();
+    for (size_t i = 0; i < n; ++i)
+        r += " " + ref_subst(*expr_child(e, i), s, repl, o);
+    return r + ")";
+}
+
+void all_nodes(expression_t& e, std::vector<std::vector<size_t>>& paths, std::vector<size_t>& cur)
+{
+    if (e.empty())
+        return;
+    paths.push_back(cur);
+    for (size_t i = 0; i < expr_stored_children(e); ++i) {
+        cur.push_back(i);
+        all_nodes(const_cast<expression_t&>(*expr_child(e, i)), paths, cur);
+        cur.pop_back();
+    }
+}
+
+expression_t& at(expression_t& root, const std::vector<size_t>& path)
+{
+    expression_t* p = &root;
+    for (size_t i : path)
+        p = const_cast<expression_t*>(expr_child(*p, i));
+    return *p;
+}
+
+void check_sizes(const expression_t& e, std::vector<std::string>& fails)
+{
+    if (e.empty())
+        return;
+    size_t stored = expr_stored_children(e);
+    size_t reported = (size_t)-1;
+    try {
+        reported = e.get_size();
+    } catch (const std::exception& ex) {
+        fails.push_back(std::string("get_size-throws:") + kind_name(e.get_kind()));
+    }
+    if (reported != (size_t)-1 && reported != stored)
+        fails.push_back(std::string("get_size:") + kind_name(e.get_kind()) + ":reported=" + std::to_string(reported) +
+                        ":stored=" + std::to_string(stored));
+    for (size_t i = 0; i < stored; ++i)
+        check_sizes(*expr_child(e, i), fails);
+}
+
+// kinds of equal arity that can stand in for one another (kind perturbation)
+int sibling_kind(int k)
+{
+    switch (k) {
+    case PLUS: return MINUS;
+    case MINUS: return PLUS;
+    case MULT: return DIV;
+    case DIV: return MOD;
+    case MOD: return MULT;
+    case BIT_AND: return BIT_OR;
+    case BIT_OR: return BIT_XOR;
+    case BIT_XOR: return BIT_AND;
+    case BIT_LSHIFT: return BIT_RSHIFT;
+    case BIT_RSHIFT: return BIT_LSHIFT;
+    case AND: return OR;
+    case OR: return AND;
+    case XOR: return OR;
+    case POW: return MULT;
+    case MIN: return MAX;
+    case MAX: return MIN;
+    case LT: return LE;
+    case LE: return LT;
+    case EQ: return NEQ;
+    case NEQ: return EQ;
+    case GE: return GT;
+    case GT: return GE;
+    case ASSIGN: return ASS_PLUS;
+    case ASS_PLUS: return ASS_MINUS;
+    case ASS_MINUS: return ASS_PLUS;
+    case ASS_DIV: return ASS_MOD;
+    case ASS_MOD: return ASS_MULT;
+    case ASS_MULT: return ASS_DIV;
+    case ASS_AND: return ASS_OR;
+    case ASS_OR: return ASS_XOR;
+    case ASS_XOR: return ASS_AND;
+    case ASS_LSHIFT: return ASS_RSHIFT;
+    case ASS_RSHIFT: return ASS_LSHIFT;
+    case NOT: return UNARY_MINUS;
+    case UNARY_MINUS: return NOT;
+    case PRE_INCREMENT: return PRE_DECREMENT;
+    case PRE_DECREMENT: return PRE_INCREMENT;
+    case POST_INCREMENT: return POST_DECREMENT;
+    case POST_DECREMENT: return POST_INCREMENT;
+    case FORALL: return EXISTS;
+    case EXISTS: return SUM;
+    case SUM: return FORALL;
+    case FMOD_F: return POW_F;
+    case POW_F: return FMOD_F;
+    case ABS_F: return SQRT_F;
+    case SQRT_F: return ABS_F;
+    case EF: return EG;
+    case EG: return AF;
+    case AF: return AG;
+    case AG: return EF;
+    case A_UNTIL: return A_WEAK_UNTIL;
+    case A_WEAK_UNTIL: return A_UNTIL;
+    case PROBA_BOX: return PROBA_DIAMOND;
+    case PROBA_DIAMOND: return PROBA_BOX;
+    case SUP_VAR: return INF_VAR;
+    case INF_VAR: return SUP_VAR;
+    default: return -1;
+    }
+}
+}  // namespace
+
+json expr_laws(Document& doc, expression_t e)
+{
+    json out;
+    std::vector<std::string> fails;
+    SexprOpts o;
+    o.sym_types = true;
+    int checks = 0, perturbations = 0;
+    auto fail = [&](const std::string& s) {
+        if (fails.size() < 20)
+            fails.push_back(s);
+    };
+    try {
+        const std::string before = sexpr(e, o);
+        const std::string kroot = kind_name(e.get_kind());
+        // --- clone
+        expression_t c = e.clone_deeper();
+        ++checks;
+        if (!c.equal(e) || !e.equal(c))
+            fail("clone-not-equal:" + kroot);
+        if (sexpr(c, o) != before)
+            fail("clone-renders-differently:" + kroot);
+        std::set<const void*> n1, n2;
+        size_t cnt1 = 0, cnt2 = 0;
+        collect_nodes(e, n1, cnt1);
+        collect_nodes(c, n2, cnt2);
+        ++checks;
+        for (auto* p : n2)
+            if (n1.count(p)) {
+                fail("clone-shares-node:" + kroot);
+                break;
+            }
+        if (cnt1 != cnt2)
+            fail("clone-node-count:" + kroot);
+        // --- independence: change every node position of a clone in turn; the original must not move
+        {
+            std::vector<std::vector<size_t>> paths;
+            std::vector<size_t> cur;
+            expression_t a = e.clone_deeper();
+            all_nodes(a, paths, cur);
+            for (auto& p : paths) {
+                if (p.empty())
+                    continue;
+                expression_t a2 = e.clone_deeper();
+                std::vector<size_t> parent(p.begin(), p.end() - 1);
+                expression_t& par = at(a2, parent);
+                // through the public API: operator[] hands out a reference to the stored child
+                if (p.back() < par.get_size())
+                    par[p.back()] = expression_t::create_constant(424242);
+                else
+                    expr_set_child(par, p.back(), expression_t::create_constant(424242));
+                ++checks;
+                if (sexpr(e, o) != before) {
+                    fail("clone-mutation-leaks-into-original:" + kroot);
+                    break;
+                }
+                // and the other direction: change the original's copy `c`, the second clone stays
+            }
+            expression_t b = e.clone_deeper();
+            expression_t b2 = b.clone_deeper();
+            const std::string bs = sexpr(b2, o);
+            std::vector<std::vector<size_t>> bp;
+            all_nodes(b, bp, cur);
+            for (auto& p : bp) {
+                if (p.empty())
+                    continue;
+                std::vector<size_t> parent(p.begin(), p.end() - 1);
+                expr_set_child(at(b, parent), p.back(), expression_t::create_constant(-7));
+                break;
+            }
+            ++checks;
+            if (sexpr(b2, o) != bs)
+                fail("original-mutation-leaks-into-clone:" + kroot);
+        }
+        // --- substitution
+        std::vector<symbol_t> syms;
+        collect_symbols(e, syms);
+        expression_t repl = expression_t::create_constant(777);
+        const std::string repl_s = sexpr(repl, o);
+        for (auto& s : syms) {
+            ++checks;
+            expression_t r = e.subst(s, repl);
+            if (sexpr(e, o) != before)
+                fail("subst-mutates-original:" + s.get_name());
+            std::string exp = ref_subst(e, s, repl_s, o);
+            std::string got = sexpr(r, o);
+            if (got != exp)
+                fail("subst-wrong-result:" + kroot + ":" + s.get_name());
+            expression_t idr = e.subst(s, expression_t::create_identifier(s));
+            ++checks;
+            if (!idr.equal(e) || !e.equal(idr))
+                fail("subst-identity-not-equal:" + kroot + ":" + s.get_name());
+        }
+        // a symbol that does not occur: result equal
+        {
+            frame_t f = frame_t::create();
+            symbol_t fresh = f.add_symbol("utapv_fresh", type_t::create_primitive(INT), position_t());
+            ++checks;
+            if (!e.subst(fresh, repl).equal(e))
+                fail("subst-absent-symbol-changes:" + kroot);
+        }
+        // --- equality
+        ++checks;
+        if (!e.equal(e))
+            fail("equal-not-reflexive:" + kroot);
+        {
+            std::string s1, s2;
+            s1 = e.str();
+            s2 = c.str();
+            if (s1 != s2)
+                fail("equal-but-different-text:" + kroot);
+        }
+        // --- perturbations: every single-node change must be detected by equal()
+        {
+            std::vector<std::vector<size_t>> paths;
+            std::vector<size_t> cur;
+            expression_t probe = e.clone_deeper();
+            all_nodes(probe, paths, cur);
+            frame_t f = frame_t::create();
+            symbol_t other = f.add_symbol("utapv_other", type_t::create_primitive(INT), position_t());
+            for (auto& p : paths) {
+                expression_t pr = e.clone_deeper();
+                expression_t& node = at(pr, p);
+                int k = node.get_kind();
+                std::string what;
+                bool changed = false;
+                int32_t iv;
+                double dv;
+                if (k == CONSTANT && expr_value_int(node, iv)) {
+                    expr_set_int(node, iv == INT32_MAX ? iv - 1 : iv + 1);
+                    // booleans are compared as 0/1: 1 -> 2 is not an observable change for a bool-typed constant
+                    if (node.get_type().isBoolean())
+                        expr_set_int(node, iv ? 0 : 1);
+                    what = "constant+1";
+                    changed = true;
+                } else if (k == CONSTANT && expr_value_double(node, dv)) {
+                    expr_set_double(node, std::nextafter(dv, INFINITY));
+                    what = "double+1ulp";
+                    changed = true;
+                } else if (k == IDENTIFIER) {
+                    expr_set_symbol(node, other);
+                    what = "symbol";
+                    changed = true;
+                } else if (sibling_kind(k) >= 0) {
+                    expr_set_kind(node, sibling_kind(k));
+                    what = std::string("kind:") + kind_name(k);
+                    changed = true;
+                }
+                if (changed) {
+                    ++perturbations;
+                    if (pr.equal(e) || e.equal(pr))
+                        fail("perturbation-undetected:" + what + ":" + kroot);
+                }
+                // swap two children that differ
+                size_t n = expr_stored_children(node);
+                if (n >= 2) {
+                    expression_t pr2 = e.clone_deeper();
+                    expression_t& nd = at(pr2, p);
+                    for (size_t i = 0; i + 1 < n; ++i) {
+                        expression_t ci = *expr_child(nd, i), cj = *expr_child(nd, i + 1);
+                        if (sexpr(ci, o) != sexpr(cj, o)) {
+                            expr_set_child(nd, i, cj);
+                            expr_set_child(nd, i + 1, ci);
+                            ++perturbations;
+                            if (pr2.equal(e) || e.equal(pr2))
+                                fail(std::string("perturbation-undetected:swap:") + kind_name(k));
+                            break;
+                        }
+                    }
+                }
+            }
+        }
+        // --- get_size
+        ++checks;
+        check_sizes(e, fails);
+        if (sexpr(e, o) != before)
+            fail("laws-changed-the-expression:" + kroot);
+    } catch (const std::exception& ex) {
+        fails.push_back(std::string("law-throws:") + demangle(typeid(ex).name()) + ":" + ex.what());
+    }
+    out["checks"] = checks;
+    out["perturbations"] = perturbations;
+    out["fails"] = fails;
+    return out;
+}
+
+}  // namespace utapv
